@@ -284,9 +284,9 @@ var traceOn = os.Getenv("GOSMT_TRACE") != ""
 func (th *Thread) visitInstr(fr *frame, instr ssa.Instruction) continuation {
 	if traceOn {
 		if v, ok := instr.(ssa.Value); ok {
-			defer func() { fmt.Fprintf(os.Stderr, "TRACE %s: %s = %s  => %v\n", fr.fn.Name(), v.Name(), instr, fr.env[v]) }()
+			defer func() { fmt.Fprintf(os.Stderr, "TRACE t%d %s: %s = %s  => %v\n", th.id, fr.fn.Name(), v.Name(), instr, fr.env[v]) }()
 		} else {
-			fmt.Fprintf(os.Stderr, "TRACE %s: %s\n", fr.fn.Name(), instr)
+			fmt.Fprintf(os.Stderr, "TRACE t%d %s: %s\n", th.id, fr.fn.Name(), instr)
 		}
 	}
 	e := th.eng
